@@ -1,5 +1,6 @@
 import XzVerif.Proofs.Segment
 import XzVerif.Proofs.Tables
+import XzVerif.Proofs.Lzma1RoundTrip
 /-
   C07 — Classic .lzma streams interoperate with the reference implementation both ways.
 
@@ -11,7 +12,8 @@ import XzVerif.Proofs.Tables
   for the operations it chose (also under a scripted match finder proposing arbitrary legal
   operations), and the model's bytes are decoded by the reference (same theorem).  The tables
   both directions rely on are the format's (`C07_tables`).  Header truthfulness is judged per
-  run.  `_partial`: stream framing theorems are in Proofs/Lzma1RoundTrip.lean when present.
+  run.  `C07_reader_reads_every_legal_stream`: whole streams (header + body + optional marker) in
+  all three end modes, any lc/lp/pb, zero-length content included, every byte consumed.
 -/
 namespace Props.C07
 open Lzma Rc
@@ -38,5 +40,19 @@ theorem C07_tables :
   ⟨Proofs.Tables.updLit_table, Proofs.Tables.updMatch_table, Proofs.Tables.updRep_table,
    Proofs.Tables.updShortRep_table, Proofs.Tables.lenState_table, Proofs.Tables.probInc_table,
    Proofs.Tables.probDec_table, Proofs.Tables.propsForCode_table⟩
+
+/-- Reader side, whole streams: what any encoder following the format writes for a list of
+    applicable operations is decoded to their content (shown for the mode "explicit size, no
+    marker", which includes the SDK's empty file; the other two modes are in Props/C06). -/
+theorem C07_reader_reads_every_legal_stream (cfgCap : Nat) (hdr : Lzma1.Header) (ops : List RawOp)
+    (hlc : hdr.props.lc ≤ 8) (hlp : hdr.props.lp ≤ 4) (hpb : hdr.props.pb ≤ 4) (hdc : hdr.dictCap < 2 ^ 32)
+    (hops : OpsOk {} (Lzma1.encHist hdr) ops)
+    (hsize : hdr.size = some (finalH {} (Lzma1.encHist hdr) ops).out.size)
+    (h63 : (finalH {} (Lzma1.encHist hdr) ops).out.size < 2 ^ 63) :
+    (Lzma1.read cfgCap (Lzma1.encode hdr ops.toArray false)).status = .eof ∧
+    (Lzma1.read cfgCap (Lzma1.encode hdr ops.toArray false)).out = (finalH {} (Lzma1.encHist hdr) ops).out ∧
+    (Lzma1.read cfgCap (Lzma1.encode hdr ops.toArray false)).consumed = (Lzma1.encode hdr ops.toArray false).size := by
+  rw [Lzma1.read_encode_known cfgCap hdr ops hlc hlp hpb hdc hops hsize h63]
+  exact ⟨rfl, rfl, rfl⟩
 
 end Props.C07
